@@ -6,7 +6,8 @@
    hash, brackets or spaces, empty lines, any code points. *)
 From Coq Require Import String List NArith.
 From CMinx Require Import Base.Str Model.Lexer Model.Parser Model.Writer Model.DocTypes Model.Aggregator
-     Model.Pipeline Gen.SourceLiterals Proofs.CleanFacts Proofs.LiteralsMatch.
+     Model.Pipeline Gen.SourceLiterals Proofs.CleanFacts Proofs.LiteralsMatch
+     Base.PySem Gen.PySource Proofs.SourceMatch.
 Import ListNotations.
 
 (* cleaning removes exactly the delimiters, the uniform indentation and the leader: the body
@@ -98,3 +99,22 @@ Print Assumptions C01_clean_doc_lines_literals_pinned.
 Theorem C01_decoder_pinned : get (s"Documenter.__init__") documenter_strings = [s"utf-8-sig"].
 Proof. exact documenter_literals. Qed.
 Print Assumptions C01_decoder_pinned.
+
+(* ---- tie by translation: Gen/PySource.v is regenerated from the CURRENT Python source by
+   translators/py2coq.py (statement-by-statement rendering of the function into Gallina over the
+   combinators of Base/PySem.v); the model function is proved equal to it for all arguments ---- *)
+Theorem C01_clean_doc_lines_matches_source :
+  forall lines, lines <> [] ->
+    clean_doc_lines lines = PySource.DocumentationAggregator_clean_doc_lines lines.
+Proof. exact clean_doc_lines_matches_source. Qed.
+Print Assumptions C01_clean_doc_lines_matches_source.
+
+Theorem C01_clean_doc_text_matches_source :
+  forall text, clean_doc_text text = PySource.DocumentationAggregator_clean_doc_lines (py_split text [nl]).
+Proof. exact clean_doc_text_matches_source. Qed.
+Print Assumptions C01_clean_doc_text_matches_source.
+
+Theorem C01_paragraph_matches_source :
+  forall d t, para_text d t = PySource.Paragraph_build_text_string t (indent d).
+Proof. exact para_text_matches_source. Qed.
+Print Assumptions C01_paragraph_matches_source.
